@@ -95,6 +95,17 @@ def seeds_vnacal(rng, exe):
             if out[i].startswith('ok'):
                 res.append(('x.vnacal', bytes.fromhex(out[i].split()[-1][1:])))
     res.append(('x.vnacal', b'#VNACAL 2.0\n---\n- frequencies: 1\n  rows: 1\n  columns: 1\n'))
+    # the old `#VNACAL 2.0` layout (sets / e matrices, implied type E12), 2 x 1 and 2 x 2
+    for (r, c) in ((2, 1), (2, 2)):
+        body = ['#VNACAL 2.0', '%YAML 1.1', '---', 'sets:', '- name: old', '  rows: %d' % r, '  columns: %d' % c, '  frequencies: 2', '  z0: +5.0e+01 +0.0e+00j', '  data:']
+        for f in ('1.0e+09', '2.0e+09'):
+            body += ['  - f: ' + f, '    e:']
+            for a in range(r):
+                for b in range(c):
+                    body.append(('    - ' if b == 0 else '      ') + '- - +1.0e-02 +2.0e-02j')
+                    body.append('        - +9.0e-01 -1.0e-01j')
+                    body.append('        - +3.0e-02 +1.0e-02j')
+        res.append(('x.vnacal', ('\n'.join(body) + '\n').encode()))
     return res
 
 
@@ -144,6 +155,17 @@ def run(chk):
     for data in YAMLS[:3]:
         for k in range(len(data)):
             inputs.append(('yaml', '-', data[:k]))
+    # every small (rows, columns) pair written into the header of every calibration seed, also with an empty data list
+    for name, data in cal_seeds:
+        for r in range(0, 4):
+            for c in range(0, 4):
+                d2_ = re.sub(rb'(?m)^(\s*rows:\s*)\d+', lambda m: m.group(1) + str(r).encode(), data, count=1)
+                d2_ = re.sub(rb'(?m)^(\s*columns:\s*)\d+', lambda m: m.group(1) + str(c).encode(), d2_, count=1)
+                inputs.append(('cal', name, d2_))
+                d3_ = re.sub(rb'(?m)^(\s*frequencies:\s*)\d+', lambda m: m.group(1) + b'0', d2_, count=1)
+                k_ = d3_.find(b'  data:')
+                if k_ > 0:
+                    inputs.append(('cal', name, d3_[:k_] + b'  data: []\n'))
     # every map key of a .vnacal / YAML document replaced by text that is not a valid property key or not the expected keyword
     for name, data in cal_seeds[:2 if quick else 5] + [('-', y) for y in YAMLS[:2]]:
         lines_ = data.split(b'\n')
@@ -165,7 +187,7 @@ def run(chk):
             return ['vd 0 alloc', 'vd 0 loadstr %s %s' % (h(name), x), 'vd 0 digest', 'vd 0 set_filetype 3', 'vd 0 set_format -', 'vd 0 set_fprecision 1000', 'vd 0 set_dprecision 1000',
                     'vd 0 savestr ' + h('r.npd'), 'vd 0 loadstr %s x%s' % (h('g.npd'), good_npd), 'vd 0 digest', 'vd 0 free', 'cal live']
         if kind == 'cal':
-            return ['cal loadstr 1 %s' % x, 'cal get_calibration_end 1', 'cal savestr 1', 'cal free 1', 'cal live']
+            return ['cal loadstr 1 %s' % x, 'cal get_calibration_end 1', 'cal savestr 1', 'cal get_info 1 0', 'cal get_info 1 1', 'cal free 1', 'cal live']
         return ['pt 0 set ' + h('keep=me'), 'pt 0 digest', 'pt 0 import x%s' % data.hex(), 'pt 0 digest', 'pt 0 export', 'pt 0 free', 'pt 0 live']
 
     def run_batch(batch):
@@ -276,7 +298,18 @@ def run(chk):
             chk.count('vd_accepted')
             chk.distinct.add(('vd', data[:40]))
         elif kind == 'cal':
-            load, end, save, live = o[0], o[1], o[2], o[4]
+            load, end, save, live = o[0], o[1], o[2], o[6]
+            for gi in (o[3], o[4]):
+                m_ = re.search(r'type=(-?\d+) rows=(\d+) cols=(\d+) freqs=(\d+)', gi)
+                if load.startswith('ok') and m_:
+                    t_, r_, c_ = int(m_.group(1)), int(m_.group(2)), int(m_.group(3))
+                    # vnacal_type_t: T8 0, U8 1, TE10 2, UE10 3, T16 4, U16 5, UE14 6, E12 8
+                    fits = r_ >= 1 and c_ >= 1 and (r_ <= c_ if t_ in (0, 2, 4) else r_ >= c_)
+                    if not fits:
+                        chk.violation('inconsistent-cal', '%s: accepted, but a calibration has type %d with dimensions %d x %d' % (tag, t_, r_, c_), sc)
+                        break
+            else:
+                pass
             if live != 'ok live=0':
                 chk.violation('residue-cal', '%s: allocations remain after a %s vnacal_load: %s' % (tag, 'successful' if load.startswith('ok') else 'failed', live), sc)
                 continue
